@@ -134,7 +134,10 @@ unsigned wv_steps;
 #define WV_SLAST 0
 #endif
 #define WV_STREAM(m, i) ((AesEncrypt *)(m)[i])
-#define WV_STREAM_IV_IS(m, i, p) WV_KEY16_EQ((m)[i]->initiv, p)
+/* one 128-bit load per side: sixteen byte loads through a pointer that itself comes out of a heap array cost CBMC 16 x the case split */
+#define WV_LOAD128(p) (*(const unsigned __int128 *)(const void *)(p))
+#define WV_STREAM_IV_IS(m, i, p) (WV_LOAD128((m)[i]->initiv) == WV_LOAD128(p))
+#define WV_STREAM_KEY_IS(m, i, k) (WV_LOAD128(WV_STREAM(m, i)->crypt._base.key.init_key) == WV_LOAD128(k))
 #define WV_KEY16_EQ(a, b) ((a)[0] == (b)[0] && (a)[1] == (b)[1] && (a)[2] == (b)[2] && (a)[3] == (b)[3] && (a)[4] == (b)[4] && \
   (a)[5] == (b)[5] && (a)[6] == (b)[6] && (a)[7] == (b)[7] && (a)[8] == (b)[8] && (a)[9] == (b)[9] && (a)[10] == (b)[10] && \
   (a)[11] == (b)[11] && (a)[12] == (b)[12] && (a)[13] == (b)[13] && (a)[14] == (b)[14] && (a)[15] == (b)[15])
